@@ -125,6 +125,21 @@ DIVERGENCES: Dict[str, Tuple[Dict[str, str], str, str]] = {
         "nan-from-zero-division",
         "0.0/0.0 (inf-inf, inf*0): Polars produces a NaN VALUE distinct from null (not is_null, greatest in comparisons and sorts, poisons sum/mean); Pandas treats it as null",
     ),
+    "extend-merge-keyerror": (
+        {"sqlite": "sql_model.SQLModel.extend_to_near_sql"},
+        "extend-over-column-trimmed-window-extend",
+        "to_sql raises KeyError: an extend (or the id-column extend of concat_rows) is placed on a select/drop_columns that removed a window column of the extend below; the merge test reads declared_term_dependencies keys that were trimmed from terms",
+    ),
+    "empty-using": (
+        {"sqlite": "sql_model.SQLModel._natural_join_sub_queries"},
+        "every-column-of-join-or-concat-overwritten",
+        "to_sql raises ValueError ('must select at least one column'): a step that overwrites or drops every column of a natural_join / concat_rows result asks it for an empty column set",
+    ),
+    "pl-records-empty-null-dtype": (
+        {"polars": "polars_model.PolarsModel.rowrecs_to_blocks"},
+        "convert_records-of-empty-table",
+        "convert_records of an empty table returns Polars columns of dtype Null (pl.DataFrame({c: []})); a later sum over such a column is null instead of 0",
+    ),
     "rawq-select": (
         {"sqlite": "sql_model.SQLModel.select_columns_to_near_sql"},
         "select_columns-after-convert_records",
@@ -364,7 +379,13 @@ def _agg(meth: str, vals: List[Any], backend: str, n_rows: int, ungrouped_projec
     value and for count/size over no rows (the documented C01 convention, not a divergence); Polars like
     Pandas, except for the all-null row it fabricates for an ungrouped project of an empty table
     (divergence pl-project-empty)."""
+    if not _nan_is_value():
+        vals = [None if _isnan(v) else v for v in vals]
     nn = [v for v in vals if v is not None]
+    if meth in ("sum", "mean") and nn and not any(_isnan(v) for v in nn):
+        tot = sum(nn)
+        if _isnan(tot):  # inf + -inf
+            return float("nan") if _nan_is_value() else None
     if any(_isnan(v) for v in nn):
         # only Polars under pl-nan: NaN poisons sum/mean, is ignored by max/min unless nothing else is
         # there, and is not counted by the executor's count formula (is_null | is_nan)
@@ -432,6 +453,127 @@ def _check_pandas_str_compare(expr: str, cols, rows, types):
         raise ModelRaise("TypeError")
 
 
+class SqlStructure:
+    """What SQL generation does with the OPERATOR TREE, as far as the known structural defects are
+    concerned.  Mirrors how each X_to_near_sql passes the `using` column set down (through the library's
+    own columns_used_from_sources) and which kind of NearSQL object comes back."""
+
+    def __init__(self):
+        self.raise_kind: Optional[str] = None  # first exception to_sql would raise
+        self.raise_flag: Optional[str] = None  # divergence responsible for it
+        self.pruned: Set[int] = set()  # id() of ungrouped ProjectNodes left without any aggregate
+        self.select_ignored: Set[int] = set()  # id() of SelectColumnsNodes whose selection the SQL ignores
+
+
+class _StructRaise(Exception):
+    pass
+
+
+def analyse_sql_structure(root) -> SqlStructure:
+    from data_algebra.OrderedSet import OrderedSet
+
+    st = SqlStructure()
+
+    def fail(kind, flag):
+        st.raise_kind, st.raise_flag = kind, flag
+        raise _StructRaise()
+
+    def desc(kind, terms=None, mergeable=False, dep_keys=None, suffix=False):
+        return {"kind": kind, "terms": terms, "mergeable": mergeable, "dep_keys": dep_keys, "suffix": suffix}
+
+    def walk(node, using, cause, star=False):
+        # star: the rows of this node reach the final result through `SELECT *` only (root, or below a root order_rows)
+        nm = node.node_name
+        if using is None:
+            using = set(node.column_names)
+            was_none = True
+        else:
+            using = set(using)
+            was_none = False
+        if nm == "TableDescription":
+            return desc("table", terms=set(using))
+        if nm == "ExtendNode":
+            using = using | set(node.partition_by) | set(node.order_by) | set(node.reverse)
+            subops = [k for k in node.ops if k in using]
+            if not subops:
+                return walk(node.sources[0], using, cause)
+            sub_using = set(node.columns_used_from_sources(using=OrderedSet(sorted(using)))[0])
+            sub = walk(node.sources[0], sub_using, "extend-overwrites-all" if not sub_using else cause)
+            keys = set(k for k in using)
+            if sub["kind"] == "unary" and sub["mergeable"] and sub["dep_keys"] is not None and not sub["suffix"]:
+                # non_trivial_terms(dep_dict=sub.declared_term_dependencies, term_dict=sub.terms) reads
+                # sub.terms[k] for every declared key
+                if sub["terms"] is None or any(k not in sub["terms"] for k in sub["dep_keys"]):
+                    fail("KeyError", "extend-merge-keyerror")
+            return desc("unary", terms=keys, mergeable=True, dep_keys=set(keys))
+        if nm == "ProjectNode":
+            subops = [k for k in node.ops if k in using]
+            if len(node.group_by) == 0 and len(node.ops) > 0 and not subops:
+                st.pruned.add(id(node))
+            sub_using = set(node.columns_used_from_sources(using=using)[0])
+            walk(node.sources[0], sub_using, "project-pruned" if not sub_using else cause)
+            return desc("unary", terms=set(subops) | set(node.group_by), suffix=len(node.group_by) > 0)
+        if nm in ("SelectRowsNode", "MapColumnsNode", "RenameColumnsNode"):
+            sub_using = set(node.columns_used_from_sources(using=OrderedSet(sorted(using)))[0])
+            walk(node.sources[0], sub_using, cause)
+            return desc("unary", terms=set(using), suffix=(nm == "SelectRowsNode"))
+        if nm == "OrderRowsNode":
+            sub_using = set(node.columns_used_from_sources(using=using)[0])
+            walk(node.sources[0], sub_using, cause, star=(star and was_none))
+            return desc("unary", terms=(None if was_none else set(sub_using)), suffix=True)
+        if nm == "SelectColumnsNode":
+            sub_using = set(node.columns_used_from_sources(using=using)[0])
+            sub = walk(node.sources[0], sub_using, cause)
+            if sub["terms"] is not None and not isinstance(sub["terms"], list):
+                if any(k not in sub["terms"] for k in node.column_selection if k in sub_using):
+                    fail("KeyError", "unmodelled")
+                sub["terms"] = set(k for k in node.column_selection if k in sub_using)
+            else:
+                sub["terms"] = []
+                if sub["kind"] == "rawq" and star:
+                    st.select_ignored.add(id(node))
+            return sub
+        if nm == "DropColumnsNode":
+            sub_using = set(node.columns_used_from_sources(using=using)[0])
+            sub = walk(node.sources[0], sub_using, cause)
+            if sub["terms"] is None or isinstance(sub["terms"], list):
+                fail("TypeError", "rawq-drop")
+            keep = [k for k in using if k not in node.column_deletions]
+            if any(k not in sub["terms"] for k in keep):
+                fail("KeyError", "unmodelled")
+            sub["terms"] = set(keep)
+            return sub
+        if nm == "NaturalJoinNode":
+            if len(using) < 1:
+                fail("ValueError", "project-pruned" if cause == "project-pruned" else "empty-using")
+            ul, ur = node.columns_used_from_sources(using=OrderedSet(sorted(using | set(node.on_a) | set(node.on_b))))
+            walk(node.sources[0], set(ul), cause)
+            walk(node.sources[1], set(ur), cause)
+            return desc("binary", terms=set(using))
+        if nm == "ConcatRowsNode":
+            if len(using) < 1:
+                fail("ValueError", "project-pruned" if cause == "project-pruned" else "empty-using")
+            ul, ur = node.columns_used_from_sources(using=OrderedSet(sorted(using)))
+            joint = set(ul)
+            srcs = [node.sources[0], node.sources[1]]
+            if node.id_column is not None:
+                srcs = [srcs[0].extend({node.id_column: '"%s"' % node.a_name}), srcs[1].extend({node.id_column: '"%s"' % node.b_name})]
+                joint = joint | {node.id_column}
+            walk(srcs[0], joint, cause)
+            walk(srcs[1], joint, cause)
+            return desc("binary", terms=set(using))
+        if nm == "ConvertRecordsNode":
+            walk(node.sources[0], None, cause)
+            return desc("rawq", terms=None)
+        return desc("unary", terms=set(using))
+
+    try:
+        walk(root, None, None, star=True)
+    except _StructRaise:
+        pass
+    return st
+
+
 class Model:
     def __init__(self, spec, data, backend: str, D: Set[str]):
         self.spec = spec
@@ -448,65 +590,44 @@ class Model:
         return (cols, rows), dict(sch)
 
     # -- driver ---------------------------------------------------------------------------------
-    def run(self, upto: Optional[int] = None, root: Optional[str] = None) -> Tuple[Table, Dict[str, str]]:
+    def run(self, upto: Optional[int] = None, root: Optional[str] = None, effects: Optional[Dict[str, Any]] = None) -> Tuple[Table, Dict[str, str]]:
         _Ctx.backend, _Ctx.D = self.backend, self.D
         steps = self.spec["steps"] if upto is None else self.spec["steps"][:upto]
         (cols, rows), types = self.table(root or self.spec["table"])
-        unused_project = self._pruned_projects(len(steps)) if (self.backend == "sqlite" and "project-pruned" in self.D and root is None) else set()
+        if effects is None:
+            effects = self._sql_effects(len(steps)) if self.backend == "sqlite" else {"pruned": set(), "select_ignored": set()}
+        self.effects = effects
+        history = []
         for i, (op, p) in enumerate(steps):
-            prev_op = steps[i - 1][0] if i > 0 else None
-            (cols, rows), types = self.step(i, op, p, cols, rows, types, prev_op, pruned=(i in unused_project))
+            (cols, rows), types = self.step(i, op, p, cols, rows, types, history, effects)
+            history.append(((cols, rows), types))
             _Ctx.backend, _Ctx.D = self.backend, self.D
         return (cols, rows), types
 
-    def _pruned_projects(self, nsteps: int) -> Set[int]:
-        """Indices of ungrouped project steps none of whose outputs is used downstream, according to the
-        library's own column-use propagation (columns_used_from_sources)."""
-        out: Set[int] = set()
+    def _sql_effects(self, nsteps: int) -> Dict[str, Any]:
+        """Step indices affected by the structural SQL-generation defects (only those whose divergence is
+        switched on), or a ModelRaise when to_sql itself raises."""
+        eff: Dict[str, Any] = {"pruned": set(), "select_ignored": set()}
+        structural = {"project-pruned", "rawq-select", "rawq-drop", "extend-merge-keyerror", "empty-using"}
+        if not (structural & self.D):
+            return eff
+        trace: List[Any] = []
         try:
-            ops = C.build(self.spec, upto=nsteps)
+            ops = C.build(self.spec, upto=nsteps, trace=trace)
         except Exception:
-            return out
-        # walk the main chain from the root, mimicking how X_to_near_sql passes `using` down
-        chain = []
-        node = ops
-        while True:
-            chain.append(node)
-            if not node.sources:
-                break
-            node = node.sources[0]
-        using = set(ops.column_names)  # every X_to_near_sql starts from the full column set at the root
-        for node in chain:
-            nm = node.node_name
-            if nm == "ProjectNode":
-                if len(node.group_by) == 0 and using is not None and len(set(node.ops.keys()) & set(using)) == 0:
-                    out.add(self._step_index_of(node, chain))
-            if nm in ("NaturalJoinNode", "ConcatRowsNode", "ConvertRecordsNode", "TableDescription"):
-                break  # using is reset / not tracked further down in this narrow trigger
-            if nm == "ExtendNode" and using is not None:
-                using = set(using) | set(node.partition_by) | set(node.order_by) | set(node.reverse)
-                if len([k for k in node.ops if k in using]) == 0:
-                    continue  # extend elided, same using passed down
-            try:
-                using = set(node.columns_used_from_sources(using=(None if using is None else _oset(using)))[0])
-            except Exception:
-                break
-        return out
-
-    def _step_index_of(self, node, chain) -> int:
-        # position of `node` counted from the leaf == index of the step that created it; order_rows steps
-        # without limit in the middle of the chain create no node, so map through project occurrence order
-        projects_below = sum(1 for n in chain[chain.index(node) + 1 :] if n.node_name == "ProjectNode")
-        seen = -1
-        for i, (op, p) in enumerate(self.spec["steps"]):
-            if op == "project":
-                seen += 1
-                if seen == projects_below:
-                    return i
-        return -1
+            return eff
+        st = analyse_sql_structure(ops)
+        if st.raise_kind is not None and st.raise_flag in self.D:
+            raise ModelRaise(st.raise_kind)
+        node_step = {id(n): i for i, n in enumerate(trace)}
+        if "project-pruned" in self.D:
+            eff["pruned"] = set(node_step[x] for x in st.pruned if x in node_step)
+        if "rawq-select" in self.D:
+            eff["select_ignored"] = set(node_step[x] for x in st.select_ignored if x in node_step)
+        return eff
 
     # -- one step -------------------------------------------------------------------------------
-    def step(self, i, op, p, cols, rows, types, prev_op, pruned=False):
+    def step(self, i, op, p, cols, rows, types, history, effects):
         be = self.backend
         if op == "extend":
             windowed = ("partition_by" in p and p["partition_by"] is not None) or bool(p.get("order_by"))
@@ -527,20 +648,20 @@ class Model:
                 return (ncols, new_rows), ntypes
             return self.window(p, cols, rows, types)
         if op == "project":
-            return self.project(p, cols, rows, types, pruned)
+            return self.project(p, cols, rows, types, pruned=(i in effects["pruned"]))
         if op == "select_rows":
             if be == "pandas" and rows:
                 _check_pandas_str_compare(p["expr"], cols, rows, types)
             keep = [r for r in rows if eval_expr(p["expr"], r) is True]
             return (cols, keep), types
         if op == "select_columns":
-            if be == "sqlite" and prev_op == "convert_records" and "rawq-select" in self.D:
-                return (cols, rows), types
+            if be == "sqlite" and i in effects["select_ignored"]:
+                # the selection is ignored: the SQL returns the convert_records output as it is
+                j = max(k for k in range(i) if self.spec["steps"][k][0] == "convert_records")
+                return history[j]
             keep = list(p["columns"])
             return (keep, [{c: r[c] for c in keep} for r in rows]), {c: types[c] for c in keep}
         if op == "drop_columns":
-            if be == "sqlite" and prev_op == "convert_records" and "rawq-drop" in self.D:
-                raise ModelRaise("TypeError")
             keep = [c for c in cols if c not in set(p["columns"])]
             return (keep, [{c: r[c] for c in keep} for r in rows]), {c: types[c] for c in keep}
         if op == "rename_columns":
@@ -666,6 +787,9 @@ class Model:
                 meth, arg = pa
                 vals = [r[arg] if arg is not None else 1 for r in grows]
                 nr[k] = _agg(meth, vals, be, len(grows), ungrouped_project=(not by))
+                if be == "polars" and arg is not None and types.get(arg) == "null" and meth == "sum":
+                    nr[k] = None  # sum over a Null-typed column
+                    ntypes[k] = "null"
             out.append(nr)
         return (ncols, out), ntypes
 
@@ -676,7 +800,7 @@ class Model:
         if "table" in b:
             return self.table(b["table"])
         sub = Model(C.prefix_spec(self.spec, i, table=b["prefix_on"]), self.data, self.backend, self.D)
-        return sub.run()
+        return sub.run(effects=self.effects)
 
     def join(self, i, p, cols, rows, types):
         be = self.backend
@@ -801,6 +925,8 @@ class Model:
             nt = {c: types[c] for c in rk}
             nt[p["key_col"]] = "str"
             nt[p["val_col"]] = "float"
+            if self.backend == "polars" and not rows and "pl-records-empty-null-dtype" in self.D:
+                nt = {c: "null" for c in ncols}
             return (ncols, out), nt
         ncols = rk + list(p["value_cols"])
         recs: Dict[Tuple, Dict[str, Any]] = {}
@@ -832,12 +958,12 @@ def _expr_type(e: str, types: Dict[str, str]) -> str:
 
 
 def model_outcome(spec, data, backend: str, D: Set[str], upto: Optional[int] = None):
-    """('ok', cols, rows as tuples) | ('raise', kind)"""
+    """('ok', cols, rows as tuples) | ('raise', kind).  A NaN value (Polars under pl-nan) is kept as NaN."""
     try:
         (cols, rows), _ = Model(spec, data, backend, D).run(upto=upto)
     except ModelRaise as e:
         return ("raise", e.kind)
-    return ("ok", list(cols), [tuple(C.canon_value(r[c]) for c in cols) for r in rows])
+    return ("ok", list(cols), [tuple(C.canon_value(r[c], keep_nan=True) for c in cols) for r in rows])
 
 
 def fixed_policy(backend: str, D: Set[str]):
@@ -859,11 +985,17 @@ def outcome_matches(spec, data, backend: str, D: Set[str], actual, ignore: Seque
             return pre[0] == "raise" and actual[0] == "raise" and pre[1] == actual[1]
         if set(pre[1]) != set(actual[1]):
             return False
-        if ignore or extra is not None:
-            # convention cells present: compare as multisets only (plus sortedness under the policy)
+        if extra is not None:
             m = model_outcome(spec, data, backend, D)
             ok, _ = C.frames_equiv((m[1], m[2]), (actual[1], actual[2]), ignore_columns=ignore, extra_cell_equiv=extra)
             return ok
+        if ignore:
+            # convention cells are not compared: project them away on both sides, keep the order check
+            keep_a = [c for c in actual[1] if c not in set(ignore)]
+            ia = [list(actual[1]).index(c) for c in keep_a]
+            ip = [list(pre[1]).index(c) for c in keep_a]
+            actual = ("ok", keep_a, [tuple(r[i] for i in ia) for r in actual[2]])
+            pre = ("ok", keep_a, [tuple(r[i] for i in ip) for r in pre[2]])
         ok, _ = check_order_limit_policy(actual[1], actual[2], pre[1], pre[2], order, fixed_policy(backend, D))
         return ok
     m = model_outcome(spec, data, backend, D)
